@@ -11,7 +11,9 @@ RULE = ("paragraphs = ordered (name, value) lists, values = first line x all con
         "back through 6 input forms x {plain, one comment line at each line boundary, comments at all boundaries} "
         "(x clearsign armor x {Deb822, Dsc, Changes} for single paragraphs).  states = distinct documents, "
         "transitions = (document, form, comment placement, armor, class) configurations, traces = parser executions; "
-        "non-trivial = documents with a continuation line or more than one field/paragraph")
+        "non-trivial = documents with a continuation line or more than one field/paragraph; sweep = one-field "
+        "paragraphs that carry one swept character in the value (first line and continuation line) or in the field name, "
+        "run through the same single-paragraph configurations (plain + comments at all boundaries, armor)")
 BUDGET = {"quick": 240, "thorough": 3000}
 
 
@@ -22,13 +24,21 @@ def bounds(tier):
             else "every 5th x every 7th value, two name pairs",
             "documents": "all pairs over a 20-paragraph pool and triples over 6, separators of 1 and 2 blank lines",
             "input_forms": ["str", "bytes", "lines with newlines", "lines without", "StringIO", "BytesIO"],
-            "comment_placements": "none / each single line boundary / all boundaries"}
+            "comment_placements": "none / each single line boundary / all boundaries",
+            "sweep": "one character at a time: %d values 'x<c>y' + continuation line ' x<c>y' under field A (c = printable "
+                     "ASCII U+0021..U+007E and %d non-ASCII letters) and %d field names 'X<c>Y' with value 'v' (c = "
+                     "printable ASCII except ':'); forms x {plain, comments at all boundaries} and the armor variants"
+                     % (len(sweep_value_chars()), len(SWEEP_NON_ASCII), len(sweep_name_chars()))}
 
 
 def assumptions():
     return ["values are assigned with an already trimmed first line; continuation lines are compared verbatim",
             "comment lines are lines starting with '#' in column 0", "clearsign armor: BEGIN PGP SIGNED MESSAGE, "
-            "0, 1 or 2 Hash armor headers, blank line, payload, blank line, signature block"]
+            "0, 1 or 2 Hash armor headers, blank line, payload, blank line, signature block",
+            "sweep: the swept value characters are printable, non-blank characters only - control characters, white "
+            "space and the characters str.splitlines cuts at (\\x0b \\x0c \\x1c-\\x1e \\x85 U+2028 U+2029) are not "
+            "'printable/UTF-8 values' in the sense of the quantifier; swept field-name characters are the policy set "
+            "U+0021..U+007E without ':' (the swept character is never first, so '#' and '-' are legal)"]
 
 
 NAMES = ["A", "Long-Name", "x1", "a9"]
@@ -42,6 +52,25 @@ def firsts(seed):
 def conts(seed):
     c = core.rep(seed, ["c", "r", "2", "Y"])
     return [" " + c, "\td", " .", " e: f", " #g", "  h  ", " i\t", " -----BEGIN PGP X-----"]
+
+
+SWEEP_NON_ASCII = ["é", "ß", "Ω", "я", "中", "ç", "ñ", "ø", "ж", "ü", "λ", "√"]
+SWEEP_CHUNK = 24
+
+
+def sweep_value_chars():
+    return [chr(cp) for cp in range(0x21, 0x7F)] + SWEEP_NON_ASCII
+
+
+def sweep_name_chars():
+    return [chr(cp) for cp in range(0x21, 0x7F) if chr(cp) != ":"]
+
+
+def sweep_pars():
+    """one-field paragraphs, simplest first: values with one swept character, then field names with one"""
+    out = [[("A", "x%sy\n x%sy" % (c, c))] for c in sweep_value_chars()]
+    out += [[("X%sY" % c, "v")] for c in sweep_name_chars()]
+    return out
 
 
 def values(tier, seed, fi):
@@ -193,13 +222,15 @@ def units(tier, seed):
     n2 = len(two_field_pars(tier, seed))
     step = 400
     out += [{"kind": "single2", "lo": i, "hi": min(n2, i + step)} for i in range(0, n2, step)]
+    ns = len(sweep_pars())
+    out += [{"kind": "sweep", "lo": i, "hi": min(ns, i + SWEEP_CHUNK)} for i in range(0, ns, SWEEP_CHUNK)]
     out += [{"kind": "multi2", "a": i} for i in range(20)]
     out += [{"kind": "multi3", "a": i} for i in range(6)]
     return out
 
 
 def unit_cost(u, tier):
-    return {"single1": 30, "single2": 10, "multi2": 2, "multi3": 3}[u["kind"]]
+    return {"single1": 30, "single2": 10, "sweep": 1, "multi2": 2, "multi3": 3}[u["kind"]]
 
 
 def run_unit(u, tier, seed):
@@ -215,7 +246,8 @@ def run_unit(u, tier, seed):
         for sig, exp, obs in bad:
             part.violation(sig, case, exp, obs, rank=sum(len(v) for _k, v in par))
         if not bad:
-            part.outcomes["single/%d-fields/%d-cont" % (len(par), min(3, sum(v.count("\n") for _k, v in par)))] += 1
+            part.outcomes["%s/%d-fields/%d-cont" % ("sweep" if u["kind"] == "sweep" else "single", len(par),
+                                                     min(3, sum(v.count("\n") for _k, v in par)))] += 1
         if len(par) > 1 or "\n" in par[0][1]:
             part.nontrivial += 1
 
@@ -228,6 +260,11 @@ def run_unit(u, tier, seed):
         pars = two_field_pars(tier, seed)[u["lo"]:u["hi"]]
         for par in pars:
             do_single(par, tier == "thorough")
+        part.sample({"kind": "single", "par": pars[0], "full": False})
+    elif u["kind"] == "sweep":
+        pars = sweep_pars()[u["lo"]:u["hi"]]
+        for par in pars:
+            do_single(par, False)
         part.sample({"kind": "single", "par": pars[0], "full": False})
     else:
         pl = pool(seed)
